@@ -44,6 +44,7 @@ func vfRunCase(t *testing.T, c *vfc20.Case) *vfc20.Run {
 	synctest.Test(t, func(t *testing.T) {
 		vfc20.SettleClock()
 		tg := vfdoubles.NewTarget()
+		tg.XGroupKey = true
 		tg.SetNow(time.Now().UnixMilli())
 		for _, p := range c.Pre {
 			vfc20.SeedPre(tg, p)
